@@ -78,7 +78,7 @@ def synthetic_case(rec, seedt):
     b = mag * 10 ** rng.uniform(-2, 2, size=m)
     if rng.random() < 0.3:
         # wildly unbalanced channels (|H| up to 1e+-100); every product a*b stays representable
-        ea = float(rng.uniform(-100, 100))
+        ea = float(rng.uniform(-165, 165))   # |H| from 1e-165 to 1e+165: |H|^2 is NOT representable
         a = 10.0 ** ea * 10 ** rng.uniform(-2, 2, size=m)
         b = 10.0 ** (-ea) * 10 ** rng.uniform(-2, 2, size=m)
         mag = 10.0 ** ea
